@@ -44,6 +44,51 @@ def memRec {σ : Type} (I : InputOps σ) : InputOps (σ × Nat) where
     | (.ok (), s1) => (.ok (), (s1, satAdd s.2 n))
     | (r, s1) => (r, (s1, s.2))
 
+/-! ### The hook trace: every successful `descend_ref` / `ascend_ref` / `on_before_alloc_mem` call, in order -/
+
+inductive Hook where
+  | desc
+  | asc
+  | alloc (n : Nat)
+  deriving Repr, DecidableEq, Inhabited
+
+/-- Records the hook calls the wrapped input answered. -/
+def traceRec {σ : Type} (I : InputOps σ) : InputOps (σ × List Hook) where
+  remainingLen s := let (r, s1) := I.remainingLen s.1; (r, (s1, s.2))
+  read n s := let (r, s1) := I.read n s.1; (r, (s1, s.2))
+  readByte s := let (r, s1) := I.readByte s.1; (r, (s1, s.2))
+  descend s :=
+    match I.descend s.1 with
+    | (.ok (), s1) => (.ok (), (s1, s.2 ++ [.desc]))
+    | (r, s1) => (r, (s1, s.2))
+  ascend s := (I.ascend s.1, s.2 ++ [.asc])
+  onAlloc n s :=
+    match I.onAlloc n s.1 with
+    | (.ok (), s1) => (.ok (), (s1, s.2 ++ [.alloc n]))
+    | (r, s1) => (r, (s1, s.2))
+
+/-- The hook calls of the unlimited decode of `bs`. -/
+def traceOf {α : Type} (p : Prog α) (bs : Bytes) : List Hook := (run (traceRec sliceInput) p (bs, [])).2.2
+
+/-- What `memRec` computes from a trace: the saturating sum of the announced sizes. -/
+def Hook.memStep (u : Nat) : Hook → Nat
+  | .alloc n => satAdd u n
+  | _ => u
+def memFold (t : List Hook) (u : Nat) : Nat := t.foldl Hook.memStep u
+
+/-- What `depthRec` computes from a trace: (currently open, maximum open). -/
+def Hook.depthStep (cm : Nat × Nat) : Hook → Nat × Nat
+  | .desc => (cm.1 + 1, max cm.2 (cm.1 + 1))
+  | .asc => (cm.1 - 1, cm.2)
+  | .alloc _ => cm
+def depthFold (t : List Hook) (cm : Nat × Nat) : Nat × Nat := t.foldl Hook.depthStep cm
+
+/-- The plain (unsaturated) sum of the announced sizes. -/
+def allocTotal : List Hook → Nat
+  | [] => 0
+  | .alloc n :: t => n + allocTotal t
+  | _ :: t => allocTotal t
+
 /-- Nesting depth the unlimited decode of `bs` needs (maximal number of open `descend_ref`s). -/
 def needDepth {α : Type} (p : Prog α) (bs : Bytes) : Nat := (run (depthRec sliceInput) p (bs, 0, 0)).2.2.2
 
